@@ -90,23 +90,28 @@ func main() {
 	only := os.Getenv("C06_ONLY") // debugging aid: "A" or "B" runs one engine only
 	if cfg.Shard == "" && cfg.Replay == "" && only != "B" {
 		// (A): soft time boxes of the history searches (quick: 75 + 25 s of the 150 s wall budget;
-		// thorough: 12 + 5 of the 25 minutes); (B) gets the rest of cfg.Deadline()
-		box1, box2 := 75*time.Second, 100*time.Second
+		// thorough: 11 + 3 + 3 of the 25 minutes); (B) gets the rest of cfg.Deadline()
+		box := []time.Duration{75 * time.Second, 0, 100 * time.Second}
 		d1, d2 := 6, 6
 		if cfg.Thorough() {
-			box1, box2 = 12*time.Minute, 17*time.Minute
+			box = []time.Duration{11 * time.Minute, 14 * time.Minute, 17 * time.Minute}
 			d1, d2 = 8, 8
 		}
 		if cfg.BudgetS > 0 {
-			box1 = time.Duration(cfg.BudgetS) * time.Second * 4 / 10
-			box2 = time.Duration(cfg.BudgetS) * time.Second * 6 / 10
+			b := time.Duration(cfg.BudgetS) * time.Second
+			box = []time.Duration{b * 4 / 10, b * 5 / 10, b * 6 / 10}
 		}
 		if v := os.Getenv("C06_DEPTH"); v != "" { // debugging aid
 			fmt.Sscan(v, &d1)
 			d2 = d1
 		}
-		searchHistories(cfg, r, "histories", false, d1, cfg.Start.Add(box1))
-		searchHistories(cfg, r, "histories-cluster", true, d2, cfg.Start.Add(box2))
+		// one failing invalidation per history, issued with a request context that is then cancelled
+		searchHistories(cfg, r, "histories", false, d1, 1, false, cfg.Start.Add(box[0]))
+		if cfg.Thorough() {
+			// richer fault placement at a smaller depth: two failing invalidations, both context kinds
+			searchHistories(cfg, r, "histories-faults", false, 6, 2, true, cfg.Start.Add(box[1]))
+		}
+		searchHistories(cfg, r, "histories-cluster", true, d2, 1, false, cfg.Start.Add(box[2]))
 	}
 	if only == "A" && cfg.Shard == "" && cfg.Replay == "" {
 		r.SetRule(rule)
